@@ -47,7 +47,22 @@ fn iter_req<K: Kmer + Send + Sync>(a: &[&str]) -> String {
                     all.push(kmer_digits(&k));
                 }
             }
-            if all.is_empty() { "-".into() } else { all.join(",") }
+            // a perfect-hash index built from that iteration (serial and parallel builders) gives every k-mer a distinct slot
+            let kmers: Vec<K> = (&g).into_iter().flat_map(|nk| nk.into_iter()).collect();
+            let n = kmers.len() as u64;
+            let distinct: std::collections::HashSet<K> = kmers.iter().cloned().collect();
+            let mut mphf_ok = true;
+            if n > 0 && distinct.len() == kmers.len() {
+                let m1 = boomphf::Mphf::from_chunked_iterator(1.7, &g, n);
+                let m2 = boomphf::Mphf::from_chunked_iterator_parallel(1.7, &g, None, n, 3);
+                for m in [&m1, &m2] {
+                    let mut seen = vec![false; n as usize];
+                    for k in &kmers {
+                        match m.try_hash(k) { Some(h) if (h as usize) < seen.len() && !seen[h as usize] => seen[h as usize] = true, _ => mphf_ok = false }
+                    }
+                }
+            }
+            format!("{}|mphf={}", if all.is_empty() { "-".to_string() } else { all.join(",") }, mphf_ok as u8)
         }
         _ => panic!("bad request"),
     }
